@@ -72,7 +72,7 @@ func (m Mut) Apply(base []byte) []byte {
 		out := append([]byte(nil), base...)
 		copy(out[32*m.I:32*m.I+32], WordBig(Boundary(m.K, len(base))))
 		return out
-	case "wordv":
+	case "wordv", "wordw":
 		out := append([]byte(nil), base...)
 		copy(out[32*m.I:32*m.I+32], Word(m.V))
 		return out
@@ -90,7 +90,7 @@ func (m Mut) Coq() string {
 		return fmt.Sprintf("(MTrunc %d)", m.N)
 	case "word":
 		return fmt.Sprintf("(MWord %d %d)", m.I, m.K)
-	case "wordv":
+	case "wordv", "wordw":
 		return fmt.Sprintf("(MWordV %d %d)", m.I, m.V)
 	case "raw":
 		return "(MRaw " + CB(m.Raw) + ")"
@@ -104,7 +104,7 @@ func (m Mut) String() string {
 		return fmt.Sprintf("truncated to %d bytes", m.N)
 	case "word":
 		return fmt.Sprintf("word %d replaced by %s", m.I, BoundaryNames[m.K])
-	case "wordv":
+	case "wordv", "wordw":
 		return fmt.Sprintf("word %d replaced by %d", m.I, m.V)
 	case "raw":
 		return fmt.Sprintf("%d raw bytes", len(m.Raw))
